@@ -155,6 +155,25 @@ def correspond(ctx):
             T = f(S); evals += 1
             if not same_sparse(S, T): ctx.violation('c20:%s-sparse' % nm, '%s does not reproduce a sparse matrix structurally' % nm, scase)
             if T is S: ctx.violation('c20:%s-aliases' % nm, '%s returns the same object' % nm, scase)
+        # in-place operators on a sparse matrix update the object itself: every other reference sees the result (also when nothing is stored yet)
+        if sm * sk:
+            for nz in (0, rng.randint(1, 3)):
+                tr2 = [(rng.randrange(sm), rng.randrange(sk), 1.0 + rng.randint(0, 3)) for _ in range(nz)]
+                S0 = spmatrix([t[2] for t in tr2], [t[0] for t in tr2], [t[1] for t in tr2], (sm, sk), 'd')
+                tb = [(rng.randrange(sm), rng.randrange(sk), float(rng.randint(1, 4))) for _ in range(rng.randint(1, 3))]
+                Bs = spmatrix([t[2] for t in tb], [t[0] for t in tb], [t[1] for t in tb], (sm, sk), 'd')
+                for opn in ('+=', '-=', '*='):
+                    S_ = +S0; T_ = S_
+                    want = {'+=': matrix(S0) + matrix(Bs), '-=': matrix(S0) - matrix(Bs), '*=': matrix(S0) * 3.0}[opn]
+                    try:
+                        if opn == '+=': S_ += Bs
+                        elif opn == '-=': S_ -= Bs
+                        else: S_ *= 3.0
+                    except (TypeError, ValueError): continue
+                    evals += 1
+                    if S_ is not T_ or list(matrix(T_)) != list(want):
+                        ctx.violation('c20:sparse-inplace-alias', 'sparse %s on a matrix with %d stored entries does not update the aliased object (S is T: %s)' % (opn, nz, S_ is T_),
+                                      dict(scase, op=opn, stored=nz))
         distinct.add(('sparse', stc, sm, sk, cnt))
     out = vlib.drive('C20', lines) if lines else []
     dis = 0
